@@ -9,6 +9,7 @@ closed form), C09LayoutChain, C09LayoutVolta, C09Sort, C09VoltaN, C09Ids.
 import PartituraModel.Props.C09
 import PartituraModel.Proofs.C09LayoutChain
 import PartituraModel.Proofs.C09LayoutVolta
+import PartituraModel.Proofs.C09LayoutRep
 
 namespace C09
 open Model.Unfold
@@ -181,5 +182,45 @@ example :
     ⟨by decide, by decide, by decide, by decide, by decide, trivial⟩ rfl (by decide) (by decide)
     (by decide) (by decide) rfl (by decide) (by decide) true 12 (by decide)).1
   rw [this]; rfl
+
+/-! ## termination of the enumeration -/
+
+/-- The class: every segment offers its successor (END for the last one), preceded by at most one destination
+that is not ahead; no awaiting destinations, no leap start.  On every such table the enumeration terminates in
+all three modes (all variants, maximal, minimal), with fuel 2^(n+1).  Measure: Σ over the segments from the
+current one on of (backward jump not yet consumed in this round)·(2^(i+1) − 1) + 1 — a forward step drops the
+current segment's term, a backward jump from i to j ≤ i consumes the term of i, which outweighs the terms of
+j..i−1 it brings back. -/
+theorem enumeration_terminates (g : List Seg) (hg : RepForm g) (hne : g ≠ []) (nr ar il : Bool) :
+    ∃ ps, getPaths g nr ar il (2 ^ (g.length + 1)) = some ps :=
+  repForm_terminates g hg hne nr ar il
+
+/-- Every part whose only structure is repeats — ANY number, nested, disjoint, sharing an end, … (each inside the
+part and of positive length) — gets a table of that class from `add_segments` (which does not raise), so the
+enumeration terminates without exhausting the fuel. -/
+theorem repeats_terminate (L : Layout) (hL : RepeatsOnly L) (nr ar il : Bool) :
+    ∃ g ps, mkSegments L = some g ∧ RepForm g ∧ getPaths g nr ar il (2 ^ (g.length + 1)) = some ps := by
+  obtain ⟨g, h1, h2, h3⟩ := repeats_repForm L hL
+  obtain ⟨ps, h4⟩ := repForm_terminates g h3 h2 nr ar il
+  exact ⟨g, ps, h1, h3, h4⟩
+
+-- non-vacuity: a repeat nested in another one that shares its end
+example : RepeatsOnly { first := 0, last := 16, repeats := [(0, 12), (4, 12)] } ∧
+    ((mkSegments { first := 0, last := 16, repeats := [(0, 12), (4, 12)] }).bind fun g => getPaths g false true true 16) =
+      some [[0, 1, 1, 2]] := by
+  refine ⟨⟨rfl, rfl, rfl, rfl, rfl, rfl, rfl, by decide, ?_⟩, by decide⟩
+  intro r hr
+  simp only [List.mem_cons, List.not_mem_nil, or_false] at hr
+  rcases hr with rfl | rfl <;> decide
+
+/-- Outside the class the enumeration need not terminate.  Da capo in the MIDDLE of a part that starts at time 0
+(likewise dal segno to a segno at the start): `add_segments` builds `A.to = [B, A]` with `A` a leap destination
+but not a leap start, and the minimal enumeration (which always takes the LAST destination) goes from A to A
+for ever — for every amount of fuel the model fails (the code raises IndexError after 100 rounds, because it
+looks the last used destination up in `destinations * 100`). -/
+theorem enumeration_may_not_terminate (il : Bool) (fuel : Nat) :
+    mkSegments { first := 0, last := 12, dacapos := [4] } = some dcMidGraph ∧
+    getPaths dcMidGraph true false il fuel = none :=
+  ⟨by decide, dcMid_no_minimal il fuel⟩
 
 end C09
